@@ -18,6 +18,7 @@ RULE = (
     "panel of fresh configurations; a fingerprint of module-level containers is a diagnostic that triggers the full panel. "
     "Non-trivial = history with >=1 mutation on an instance other than the one probed first and >=1 env-less parse of a document "
     "with definitions; distinct by the step sequence."
+    " Also: with a plug-in that hands data from parse to render through env, render(src) == render(src, {}) and likewise renderInline."
 )
 ASSUMPTIONS = ["'identically configured' = the twin replays the history's configuration steps only (construct, enable/disable, option writes, render rules, plug-ins)"]
 
